@@ -607,6 +607,16 @@ func c17AlterFlags(e *Env, viol func(kind, sig, what, chk string, rep any), mu *
 			}
 			single[k] = f
 		}
+		// a constraint the planner cannot name cannot be dropped again: adding an UNNAMED check (the server makes
+		// up its name) is never reported reversible
+		for _, k := range []string{"add-check-unnamed", "add-check-unnamed-2"} {
+			if f, ok := single[k]; ok && f {
+				if _, planned := all[k]; planned {
+					_, text, _ := flag([]string{k})
+					viol("failing-input", "unnamed-check-reported-reversible", fmt.Sprintf("%s: adding a CHECK constraint without a name is planned with Reversible=true - the reverse statement names a constraint the planner cannot know:\n%s", d, text), "Props.C17 irreversible_never_reversible", map[string]any{"dialect": d, "changes": []string{k}})
+				}
+			}
+		}
 		// an edit that cannot be reversed alone cannot be reversed when the same ModifyColumn carries more bits
 		if f, ok := single["g-drop-expr"]; ok && !f {
 			for _, k := range names {
